@@ -215,16 +215,64 @@ def r12_4(run):
     borrow(run, c01.r01_2, 'R12.4')
 
 
+def r12_5(run):
+    """a line is produced for *any* keys and values: between set_conf's arguments and the queue the only tests on the text that
+    can refuse a command are the CR/LF test, the even-number-of-arguments test and type tests - a "printable only", "ASCII only" or
+    length filter refuses values the property covers (a TAB is legal inside a quoted value)"""
+    sc = U(run, 'set_conf')
+    qc = U(run, 'queue_command')
+    k = 0
+    for u, sink in ((sc, lambda a: isinstance(a, ast.Call) and callee_attr(a) == 'queue_command'),
+                    (qc, lambda a: is_call_to(a, 'self.commands.append'))):
+        g = cfg_of(u)
+        texty = set(u.params[1:2]) | set([u.node.args.vararg.arg] if u.node.args.vararg else [])
+        defs = local_defs(u)
+        changed = True
+        while changed:
+            changed = False
+            for nm, ds in defs.items():
+                if nm in texty:
+                    continue
+                for d in ds:
+                    if len(d) > 1 and isinstance(d[1], ast.AST) and any(isinstance(x, ast.Name) and x.id in texty for x in ast.walk(d[1])):
+                        texty.add(nm)
+                        changed = True
+                        break
+        sinks = g.nodes_where(lambda n: any(sink(a) for a in node_asts(n)))
+        if not sinks:
+            raise AnchorVanished('%s: command sink' % u.short)
+        after = g.reachable(sinks)
+        refusals = [n for n in g.real_nodes() if n.kind == 'stmt' and isinstance(n.ast, (ast.Return, ast.Raise)) and n not in after]
+        for e in refusals:
+            for t, lab in g.guarded_by(e, lambda t_: True):
+                a = t.ast
+                if not any(isinstance(x, ast.Name) and x.id in texty for x in ast.walk(a)):
+                    continue
+                k += 1
+                consts = set(c.value for c in ast.walk(a) if isinstance(c, ast.Constant) and isinstance(c.value, (str, bytes)))
+                crlf = bool(consts) and all(set(c if isinstance(c, str) else c.decode('latin1')) <= set('\r\n') for c in consts)
+                typ = isinstance(a, ast.Call) and dotted(a.func) == 'isinstance'
+                arity = isinstance(a, ast.BinOp) and isinstance(a.op, ast.Mod) and 'len(' in src(a)
+                run.ob('R12.5', u, a, 'a command is refused only for CR/LF, an odd argument count or a wrong type', crlf or typ or arity,
+                       slot='refusal:%s:%s' % (u.name, src(a)[:30]),
+                       message='%s refuses a command when %s%s: values the property covers (any printable text, tabs, quotes, backslashes) produce no SETCONF line'
+                               % (u.short, '' if lab == 'T' else 'not ', src(a)[:60]))
+    run.floor('R12.5', 'refusing tests on the command text', k, 2)
+
+
 RULES = [
     ('R12.4', 'the command text set_conf builds is queued, encoded and written unchanged (rule R01.2 borrowed)', r12_4),
     ('R12.1', 'quoting is total over the critical characters (space, tab, double quote) and escapes backslash then quote (recognised idioms)', r12_1),
     ('R12.2', 'sanitiser on the path: a test on both CR and LF rejects before the command can be queued/written', r12_2),
+    ('R12.5', 'who-may-refuse: the only tests on the text that refuse a command are CR/LF, argument parity and type tests', r12_5),
     ('R12.3', 'one "SETCONF " command, items key=value joined by one space, even/odd pairing in argument order', r12_3),
 ]
 
 from ..selftest import M  # noqa: E402
 F = 'txtorcon/torcontrolprotocol.py'
 MUTANTS = [
+    M('printable-only-filter', F, "        if not isinstance(cmd, bytes):\n            cmd = cmd.encode('ascii')\n        d = defer.Deferred()", "        if not isinstance(cmd, bytes):\n            if not cmd.isprintable():\n                return defer.fail(ValueError('control characters'))\n            cmd = cmd.encode('ascii')\n        d = defer.Deferred()", ['R12.5']),
+    M('length-limit', F, "        keys = [strargs[i] for i in range(0, len(strargs), 2)]", "        if any(len(x) > 255 for x in strargs):\n            raise ValueError('too long')\n        keys = [strargs[i] for i in range(0, len(strargs), 2)]", ['R12.5']),
     M('crlf-both-required', F, "if any('\\r' in x or '\\n' in x for x in strargs):", "if any('\\r' in x and '\\n' in x for x in strargs):", ['R12.2']),
     M('args-rstripped', F, "        strargs = [str(x) for x in args]", "        strargs = [str(x).rstrip('\\r\\n') for x in args]", ['R12.3']),
     M('command-whitespace-collapsed', F, "            cmd = cmd.encode('ascii')\n        d = defer.Deferred()", "            cmd = re.sub(r'\\s+', ' ', cmd).encode('ascii')\n        d = defer.Deferred()", ['R12.4/R01.2']),
